@@ -3808,4 +3808,91 @@ Proof. intros s HI Hp. apply (run_good n InvC prim_pre step_preserves_InvC tr s 
 Theorem trace_from_fresh_InvC tr : pre_trace n prim_pre tr (init_state n) -> InvC (run n tr (init_state n)).
 Proof. apply run_preserves_InvC, init_state_InvC. Qed.
 
+(* ======================================================================== *)
+(* Part S : the same, for trees that agree up to the order of the two children of a node and
+   the order of the entries of `children` (what restore_ind does to the dict) *)
+Definition ch_sub (c1 c2 : list (node * (node * node))) : Prop :=
+  forall q l r, nget q c1 = Some (l, r) -> nget q c2 = Some (l, r) \/ nget q c2 = Some (r, l).
+Definition ch_equiv c1 c2 : Prop := ch_sub c1 c2 /\ ch_sub c2 c1.
+Lemma inv_ok_swap sl0 l r inv : inv_ok n sl0 l r inv -> inv_ok n sl0 r l inv.
+Proof. intros [W G]. split; [exact W|]. intros j. rewrite G. lia. Qed.
+Lemma ch_equiv_keys c1 c2 : ch_equiv c1 c2 -> forall q, In q (nkeys c1) <-> In q (nkeys c2).
+Proof.
+  intros [H1 H2] q. rewrite <- !nget_in_keys. split; intros H.
+  - destruct (nget q c1) as [[l r]|] eqn:E; [|congruence]. destruct (H1 q l r E) as [E'|E']; rewrite E'; discriminate.
+  - destruct (nget q c2) as [[l r]|] eqn:E; [|congruence]. destruct (H2 q l r E) as [E'|E']; rewrite E'; discriminate.
+Qed.
+
+Theorem figures_determined_eq s1 s2 : InvC s1 -> InvC s2 -> ch_equiv (children s1) (children s2) ->
+  (forall j, In j (removed (sliced s1)) <-> In j (removed (sliced s2))) ->
+  forall nd i1 i2, nget nd (info s1) = Some i1 -> nget nd (info s2) = Some i2 ->
+  (forall z1 z2, i_size i1 = Some z1 -> i_size i2 = Some z2 -> z1 = z2) /\
+  (forall z1 z2, i_flops i1 = Some z1 -> i_flops i2 = Some z2 -> z1 = z2) /\
+  (forall l1 l2, i_legs i1 = Some l1 -> i_legs i2 = Some l2 ->
+     size_of (szd n) (lkeys l1) = size_of (szd n) (lkeys l2) /\ forall j, In j (lkeys l1) <-> In j (lkeys l2)).
+Proof.
+  intros [HS1 _] [HS2 _] [Hs12 Hs21] Hrm nd i1 i2 Hi1 Hi2.
+  assert (HS1' := HS1). destruct HS1' as (Hc1&_&N1&_). assert (HS2' := HS2). destruct HS2' as (Hc2&_&N2&_).
+  destruct (N1 nd i1 Hi1) as [G (A1&B1&C1&D1)]. destruct (N2 nd i2 Hi2) as [_ (A2&B2&C2&D2)].
+  destruct (g_legs_inv s1 nd HS1 G) as (_ & _ & Hw). set (lg0 := snd (g_legs n s1 nd)) in *.
+  pose proof (legs_ok_same _ _ Hrm nd lg0 Hw) as Hw2.
+  split; [|split].
+  - intros z1 z2 E1 E2. rewrite (C1 z1 E1 lg0 Hw), (C2 z2 E2 lg0 Hw2). reflexivity.
+  - intros z1 z2 E1 E2. destruct (D1 z1 E1) as [[L1 ->]|(l & r & Ech1 & F1)].
+    + destruct (D2 z2 E2) as [[_ ->]|(l & r & Ech2 & _)]; [reflexivity|].
+      exfalso. apply (leaf_not_parent _ nd l r Hc2 Ech2 L1).
+    + destruct (D2 z2 E2) as [[L2 _]|(l' & r' & Ech2 & F2)]; [exfalso; apply (leaf_not_parent _ nd l r Hc1 Ech1 L2)|].
+      destruct (g_involved_inv s1 nd HS1 G) as (_ & _ & Hv).
+      destruct Hv as [[L _]|(l2 & r2 & E & Hinv)]; [right; congruence|exfalso; apply (leaf_not_parent _ nd l r Hc1 Ech1 L)|].
+      rewrite Ech1 in E. injection E as <- <-.
+      pose proof (inv_ok_same _ _ Hrm l r _ Hinv) as Hinv2.
+      rewrite (F1 _ Hinv). destruct (Hs12 nd l r Ech1) as [E'|E']; rewrite Ech2 in E'; injection E' as -> ->.
+      * symmetry. apply (F2 _ Hinv2).
+      * symmetry. apply (F2 _ (inv_ok_swap _ _ _ _ Hinv2)).
+  - intros l1 l2 E1 E2. pose proof (legs_ok_same _ _ Hrm nd l1 (A1 l1 E1)) as H1. pose proof (A2 l2 E2) as H2.
+    split; [apply (legs_ok_size_unique n (sliced s2) _ nd); assumption|].
+    unfold legs_ok in H1, H2. destruct (Nat.eqb (length nd) N).
+    + destruct H1 as [_ G1], H2 as [_ G2]. intros j. rewrite <- !lget_in_keys, G1, G2. tauto.
+    + destruct H1 as [W1 G1], H2 as [W2 G2]. apply wfl_keys_same; try assumption. intros j. rewrite G1, G2. reflexivity.
+Qed.
+
+Theorem totals_determined_eq s1 s2 : InvC s1 -> InvC s2 -> ch_equiv (children s1) (children s2) ->
+  Permutation (sliced s1) (sliced s2) ->
+  (forall p, In p (nkeys (children s1)) -> nget p (info s1) <> None /\ nget p (info s2) <> None) ->
+  (trk_flops s1 = true -> trk_flops s2 = true -> flops_ s1 = flops_ s2) /\
+  (trk_write s1 = true -> trk_write s2 = true -> write_ s1 = write_ s2) /\
+  mult s1 = mult s2.
+Proof.
+  intros HI1 HI2 Heq HP Hpres.
+  assert (Hrm : forall j, In j (removed (sliced s1)) <-> In j (removed (sliced s2))).
+  { intros j. unfold removed. split; apply Permutation_in; [|apply Permutation_sym]; apply Permutation_map, HP. }
+  pose proof (figures_determined_eq s1 s2 HI1 HI2 Heq Hrm) as HF.
+  destruct HI1 as [HS1 HT1], HI2 as [HS2 HT2].
+  assert (HPk : Permutation (nkeys (children s2)) (nkeys (children s1))).
+  { apply NoDup_Permutation; [apply HS2|apply HS1|]. intros q. symmetry. apply ch_equiv_keys, Heq. }
+  assert (HT1' : tot_flops (nkeys (children s1)) s1 /\ tot_write (nkeys (children s1)) s1 /\ tot_size (nkeys (children s1)) s1) by (apply totals_split, HT1).
+  assert (HT2' : tot_flops (nkeys (children s2)) s2 /\ tot_write (nkeys (children s2)) s2 /\ tot_size (nkeys (children s2)) s2) by (apply totals_split, HT2).
+  destruct HT1' as (F1 & W1 & _), HT2' as (F2 & W2 & _).
+  split; [|split].
+  - intros T1 T2. destruct (F1 T1) as [Ea Pa], (F2 T2) as [Eb Pb]. rewrite Ea, Eb.
+    rewrite (zsum_perm _ _ (Permutation_map (cflops s2) HPk)). f_equal. apply map_ext_in. intros p Hp.
+    destruct (Hpres p Hp) as [K1 K2]. destruct (nget p (info s1)) as [i1|] eqn:E1; [|congruence].
+    destruct (nget p (info s2)) as [i2|] eqn:E2; [|congruence].
+    specialize (Pa p Hp). assert (Hp2 : In p (nkeys (children s2))) by (apply (Permutation_in _ (Permutation_sym HPk)), Hp). specialize (Pb p Hp2).
+    unfold cflops, rd in *. rewrite E1 in *. rewrite E2 in *.
+    destruct (HF p i1 i2 E1 E2) as (_ & Hf & _).
+    destruct (i_flops i1) as [z1|]; [|congruence]. destruct (i_flops i2) as [z2|]; [|congruence].
+    apply (Hf z1 z2); reflexivity.
+  - intros T1 T2. destruct (W1 T1) as [Ea Pa], (W2 T2) as [Eb Pb]. rewrite Ea, Eb.
+    rewrite (zsum_perm _ _ (Permutation_map (csize s2) HPk)). f_equal. apply map_ext_in. intros p Hp.
+    destruct (Hpres p Hp) as [K1 K2]. destruct (nget p (info s1)) as [i1|] eqn:E1; [|congruence].
+    destruct (nget p (info s2)) as [i2|] eqn:E2; [|congruence].
+    specialize (Pa p Hp). assert (Hp2 : In p (nkeys (children s2))) by (apply (Permutation_in _ (Permutation_sym HPk)), Hp). specialize (Pb p Hp2).
+    unfold csize, rd in *. rewrite E1 in *. rewrite E2 in *.
+    destruct (HF p i1 i2 E1 E2) as (Hsz & _).
+    destruct (i_size i1) as [z1|]; [|congruence]. destruct (i_size i2) as [z2|]; [|congruence].
+    apply (Hsz z1 z2); reflexivity.
+  - destruct HS1 as (_&_&_&M1), HS2 as (_&_&_&M2). rewrite M1, M2. apply multiplicity_perm, HP.
+Qed.
+
 End Inv.
